@@ -356,6 +356,7 @@ func checkC14(ctx *Ctx) *Result {
 	// IndexAfter binary-searches the set: its elements must be kept sorted
 	r.rule("R1.10", "binary-searched slices (here: SortedSet.elems) are sorted whenever they are written", 1)
 	sortedDiscipline(ctx, r, "R1.10")
+	owsTrimmers(ctx, r)
 	return r
 }
 
